@@ -173,15 +173,23 @@ def build_sequence(ctx: pg.Ctx, case: dict):
     """The sequence of a case (ops that the API refuses are dropped) -> (seq, ops applied)."""
     import props.C08 as c8
 
-    seq = ctx.new_template()
-    vars_ = c8.declare_vars(seq, case["decl"]) if case["decl"] else {}
-    mk = lambda x: pg.to_param(x, vars_)  # noqa: E731
-    used = []
-    for op in case["ops"]:
-        r = pg.try_op(seq, ctx, op, mk, omit_defaults=case.get("omit_defaults", False))
-        if r[0] == "ok":
-            used.append(op)
-    return seq, used
+    ops = case["ops"]
+    for _attempt in range(3):
+        seq = ctx.new_template()
+        vars_ = c8.declare_vars(seq, case["decl"]) if case["decl"] else {}
+        mk = lambda x: pg.to_param(x, vars_)  # noqa: E731
+        failed = None
+        for i, op in enumerate(ops):
+            r = pg.try_op(seq, ctx, op, mk, omit_defaults=case.get("omit_defaults", False))
+            if r[0] != "ok":
+                failed = i
+                break
+        if failed is None:
+            return seq, ops
+        # a refused call (store-time check of a parametrized program) may leave traces: start again
+        # without it and without what follows
+        ops = ops[:failed]
+    return seq, ops
 
 
 # --------------------------------------------------------------------------------------
